@@ -141,6 +141,10 @@ def draw_program(draw):
             nv += 1
         elif k == 4:
             main.append(["val", draw(st.integers(0, nv - 1))])
+        elif k == 7 and draw(st.integers(0, 5)) == 0:
+            # a sub-circuit call inside a region guarded by a secret condition of the CALLER (value 0 or 1); the body asserts
+            # something that holds for the live call and fails for the dead one
+            main.append(["gcall", draw(st.integers(0, nv - 1)), draw(st.integers(0, 1))])
         elif ncalls < 4:
             fi = draw(st.integers(0, nfun - 1))
             use_clash = clash is not None and clash["base"] == fi and draw(st.booleans())
@@ -227,6 +231,8 @@ def render(prog):
         fun(f, pyname(f), prog["funcs"])
     if prog["clash"]:
         fun(prog["clash"]["func"], pyname(prog["clash"]["func"]) + "_alt", prog["funcs"])
+    if any(s[0] == "gcall" for s in prog["main"]):
+        L += ['@qb.subqap("chkzero")', "def chk_zero(a):", "    a.assert_zero()", "    return a * a", ""]
     v = []
     L.append("LEAK = PrivVal(5)")
     for s in prog["main"]:
@@ -242,6 +248,8 @@ def render(prog):
             v.append(nm)
         elif s[0] == "val":
             L.append("%s.val()" % v[s[1]])
+        elif s[0] == "gcall":
+            L.append("rt.guarded(PrivVal(%d))(lambda: chk_zero(%s - %s + %d))()" % (s[2], v[s[1]], v[s[1]], 0 if s[2] else 3))
         else:
             f = prog["funcs"][s[1]]
             py = pyname(f) + ("_alt" if s[3] else "")
@@ -290,6 +298,13 @@ def analyse(prog, tmp, r):
             return None, info
         return ("a sub-circuit multiplied one of its values with a value of its caller that was not passed as an argument; the "
                 "equation over wires of two contexts was not refused (no 'Inconsistent contexts')"), info
+    if any(s[0] == "gcall" for s in prog["main"]):
+        info["guarded_call"] = True
+        if "Inconsistent contexts" in r.stderr:
+            # today a call under a guard of the caller is refused when the equations are split (they mention the caller's guard
+            # wire); accepting it is fine as well, provided that everything below holds
+            info["mixed_contexts_refused"] = True
+            return None, info
     try:
         wires = qapfiles.parse_values(rd("pysnark_wires"))
         ios = qapfiles.parse_values(rd("pysnark_values"))
@@ -486,6 +501,8 @@ def shard(seed, n_examples):
                 stats.inconclusive[info["skipped"]] += 1
             if info.get("mixed_contexts_refused"):
                 labels.append("mixed-contexts-refused")
+            if info.get("guarded_call"):
+                labels.append("sub-circuit-call-under-a-guard-of-the-caller")
             if info["after_last_pub"]:
                 labels.append("constraint-after-last-public-value")
             stats.case(prog if nt else None, nt, labels)
@@ -493,7 +510,8 @@ def shard(seed, n_examples):
                 raise core.Violation({"prog": prog}, msg, "files")
         v = core.drive(test, seed, n_examples)
         if v is not None:
-            v.case["source"] = render(v.case["prog"]).split("\n")[len(PROLOGUE.split("\n")) - 1:]
+            if "prog" in v.case:
+                v.case["source"] = render(v.case["prog"]).split("\n")[len(PROLOGUE.split("\n")) - 1:]
             stats.violations.append({"case": v.case, "msg": v.msg, "key": v.key})
     finally:
         shutil.rmtree(tmp, ignore_errors=True)
